@@ -8,7 +8,7 @@ import (
 // resolution in a virtual file system) over an all-symbolic root file.
 func HScanProject() {
 	n := vParam("n", 3)
-	data := vBytes("d", n)
+	data := append([]byte(vPrefixes[vParam("pre", 0)]), vBytes("d", n)...)
 	vDir(vPath("/vfs/p"))
 	vFile(vPath("/vfs/p/a"), []byte("GET /a\n 200 any\n"))
 	vDir(vPath("/vfs/p/d"))
@@ -24,3 +24,23 @@ func HScanProject() {
 }
 
 func init() { vRegister("HScanProject", HScanProject) }
+
+// HBuild: the whole build (scan, compile, catalog) over prefix ++ symbolic bytes.
+func HBuild() {
+	n := vParam("n", 2)
+	data := append([]byte(vPrefixes[vParam("pre", 0)]), vBytes("d", n)...)
+	vDir(vPath("/vfs/p"))
+	vFile(vPath("/vfs/p/a"), []byte("GET /a\n 200 any\n"))
+	vDir(vPath("/vfs/p/d"))
+	f := fs.NewFile(vPath("/vfs/p/root.jst"), data)
+	c := NewJApiCore(f)
+	je := c.BuildCatalog()
+	if je != nil {
+		vAssert(je.File != nil, "error-without-file")
+		vObserve("err", int(je.Index), je.Msg)
+		return
+	}
+	vObserve("ok", len(c.directivesWithPastes))
+}
+
+func init() { vRegister("HBuild", HBuild) }
